@@ -351,6 +351,17 @@ def csv_read_case(draw):
     ncol = draw(st.integers(2, 5))
     nrow = draw(st.integers(2, 6))
     header = draw(st.lists(gen.ident(6), min_size=ncol, max_size=ncol, unique_by=lambda s: s.lower()))
+    if draw(st.integers(0, 7)) == 0:
+        # a WIDE file: the header row alone is about as long as (or longer than) the sample a reader may sniff
+        # (1024 characters), the lengths around that mark in particular
+        ncol = draw(st.sampled_from([60, 90, 128, 129, 130, 200]))
+        target = draw(st.sampled_from([1000, 1020, 1021, 1022, 1023, 1024, 1025, 1026, 1100, 2047, 2048, 2049, 4000]))
+        width = max(2, (target - (ncol - 1)) // ncol)
+        header = [("c%d" % i).ljust(width, "x") for i in range(ncol)]
+        slack = target - (sum(len(h) for h in header) + ncol - 1)
+        if slack > 0:
+            header[-1] += "y" * slack
+        nrow = 2
     if draw(st.integers(0, 3)) == 0:
         # a column named like a Python keyword is a column like any other ('from', 'class', 'in' are common headers)
         kw = draw(st.sampled_from(["from", "class", "in", "is", "import", "def", "lambda", "not", "global", "pass"]))
@@ -384,6 +395,8 @@ def check_csv_read(case, ctx):
         ctx.cls("discarded:sniffer-failed")
         return
     ctx.cls("delim:%r" % case["delim"])
+    if len(case["header"]) >= 60:
+        ctx.cls("csv-read:wide-header:%d" % (sum(len(h) for h in case["header"]) + len(case["header"]) - 1))
     if any(not any(r) for r in case["rows"]):
         ctx.cls("csv-read:row-of-empty-cells")
     ctx.nontriv()
